@@ -1435,4 +1435,61 @@ pub mod verif {
             Some(self.convert(cmd))
         }
     }
+
+    // C33/C34: a real `P2p` on caller-owned command and peer-tracker channels (what `P2p::mocked`
+    // builds under cfg(test)), for driving the daser.  Needs a tokio runtime context.
+    pub struct DaserP2pRig {
+        cmd_tx: mpsc::Sender<P2pCmd>,
+        cmd_rx: mpsc::Receiver<P2pCmd>,
+        peer_tracker_tx: watch::Sender<PeerTrackerInfo>,
+    }
+
+    /// the reply channel of one `GetShwapCid` command
+    pub struct ShwapResponder(OneshotResultSender<Vec<u8>, P2pError>);
+
+    impl ShwapResponder {
+        pub fn ok(self, block: Vec<u8>) -> bool {
+            self.0.send(Ok(block)).is_ok()
+        }
+        pub fn timed_out(self) -> bool {
+            self.0.send(Err(P2pError::RequestTimedOut)).is_ok()
+        }
+        pub fn fatal(self) -> bool {
+            self.0.send(Err(P2pError::WorkerDied)).is_ok()
+        }
+    }
+
+    pub fn daser_p2p(channel_capacity: usize) -> (Arc<P2p>, DaserP2pRig) {
+        let (cmd_tx, cmd_rx) = mpsc::channel(channel_capacity);
+        let (peer_tracker_tx, peer_tracker_rx) = watch::channel(PeerTrackerInfo::default());
+        let p2p = P2p {
+            cmd_tx: cmd_tx.clone(),
+            cancellation_token: CancellationToken::new(),
+            join_handle: spawn(async {}),
+            peer_tracker_info_watcher: peer_tracker_rx,
+            local_peer_id: PeerId::random(),
+        };
+        (Arc::new(p2p), DaserP2pRig { cmd_tx, cmd_rx, peer_tracker_tx })
+    }
+
+    impl DaserP2pRig {
+        /// `MockP2pHandle::announce_peer_connected` / `announce_all_peers_disconnected`
+        pub fn set_connected_peers(&self, n: usize) {
+            self.peer_tracker_tx.send_modify(|info| {
+                info.num_connected_peers = n as _;
+            });
+        }
+        /// number of commands sent by the node side and not yet received here
+        pub fn queued(&self) -> usize {
+            self.cmd_tx.max_capacity() - self.cmd_tx.capacity()
+        }
+        /// next queued command: `Ok((cid, responder))` for `GetShwapCid`, `Err(debug text)` for
+        /// any other command; `None` when the queue is empty
+        pub fn try_next(&mut self) -> Option<std::result::Result<(Cid, ShwapResponder), String>> {
+            match self.cmd_rx.try_recv().ok()? {
+                P2pCmd::GetShwapCid { cid, respond_to } => Some(Ok((cid, ShwapResponder(respond_to)))),
+                cmd => Some(Err(format!("{cmd:?}"))),
+            }
+        }
+    }
 }
